@@ -113,7 +113,7 @@ def h_closure(cx, layout_a, layout_b):
     a, _ = lib.mk_obs(cx, 'a', layout_a)
     b, _ = lib.mk_obs(cx, 'b', layout_b)
     z = pe.CObs(a, b)
-    nums = {'int': 3, 'float': 2.5, 'complex': 2 + 3j, 'npfloat': np.float64(0.5)}
+    nums = {'int': 3, 'float': 2.5, 'complex': 2 + 3j, 'npfloat': np.float64(0.5), 'complex-real': complex(2.5, 0.0), 'npcomplex-real': np.complex128(0.5 + 0j), 'npcomplex': np.complex128(0.5 - 1.5j)}
     ops = {'add': lambda x, y: x + y, 'sub': lambda x, y: x - y, 'mul': lambda x, y: x * y, 'div': lambda x, y: x / y}
     for on, op in ops.items():
         for nn, num in nums.items():
@@ -132,7 +132,14 @@ def h_closure(cx, layout_a, layout_b):
         closed(cx, op(z, a), '%s[cobs,obs]' % on)
         closed(cx, op(a, z), '%s[obs,cobs]' % on)
         closed(cx, op(z, z), '%s[cobs,cobs]' % on)
+        zr = pe.CObs(b)                   # complex observable whose imaginary part is the plain default 0.0
+        closed(cx, op(z, zr), '%s[cobs,cobs-real]' % on)
+        closed(cx, op(zr, z), '%s[cobs-real,cobs]' % on)
+        closed(cx, op(a, zr), '%s[obs,cobs-real]' % on)
+        closed(cx, op(zr, a), '%s[cobs-real,obs]' % on)
     for nn, num in nums.items():
+        if nn.startswith('npcomplex'):
+            continue        # powers with complex-typed numbers are the known finding C04-obs-pow-complex: two representatives suffice
         for order in ('l', 'r'):
             label = 'pow[obs,%s,%s]' % (nn, order)
             try:
